@@ -158,8 +158,12 @@ TTick ==
   LET ev == Log[l]
       nows == ev.now \div 1000
       had == lastFrame[1] >= 0
-      mustEnd == had /\ full.ms # 0 /\ ev.now - lastFrame[1] >= 30000
+      \* "after 30 s without any frame the periodic tick ends the session, clears the charge counter and empties
+      \* the session table" - whatever state the engine is in.  The timer a frame armed fires once: between 29 s
+      \* and 30 s (sub-second rounding of the two clocks) the record's own timer field says whether it did.
+      mustEnd == had /\ ev.now - lastFrame[1] >= 30000
       mustNot == had /\ nows - lastFrame[2] <= 29
+      fired == had /\ (mustEnd \/ (~mustNot /\ ev.inact = 0))
       survivors == {e \in full.live : ~(nows > e.last + Expiry)}
       \* C13 at the level of the tick: when the block deadline has passed in Pausing the block ends, however
       \* late the tick is: the count follows the formula for the Hellos actually heard (a Hello sent in this
@@ -186,10 +190,11 @@ TTick ==
      /\ (Primary = "C14" /\ had /\ full.ms # 0 => TLCSet(2, TLCGet(2) \cup {<< "tick", mustEnd, mustNot >>}))
      /\ (Primary = "C12" /\ Len(ev.hellos) > 0 => TLCSet(2, TLCGet(2) \cup {l}))
      /\ lastHello' = LastHelloAfter(ev.hellos, lastHello)
-     /\ Chk("XGLUE") => ev.ctc = CtcAfterTick(full.ctc, full, nows, full.ms # 0 /\ ev.ms = 0)
-     /\ full' = [FullOf(ev) EXCEPT !.cdl = CdlAfterTick(full, nows, full.ms # 0 /\ ev.ms = 0)] /\ tbl' = LiveSet(ev)
+     /\ Chk("XGLUE") => ev.ctc = CtcAfterTick(full.ctc, full, nows, fired)
+     /\ full' = [FullOf(ev) EXCEPT !.cdl = CdlAfterTick(full, nows, fired)] /\ tbl' = LiveSet(ev)
      /\ lastIn' = (IF ev.ms # full.ms THEN << nows, lastIn[2] >> ELSE lastIn)
-     /\ l' = l + 1 /\ UNCHANGED << mT, sT, lastFrame, lastNi >>
+     /\ lastFrame' = (IF fired THEN << 0 - 1, 0 - 1 >> ELSE lastFrame)
+     /\ l' = l + 1 /\ UNCHANGED << mT, sT, lastNi >>
 
 (* ------------------------------------------------------------ the documented frame-processing flow   *)
 (* (Documentation/automata_runtime.md, os/darwin/daemon/darwin-main.c; beyond the listed properties,   *)
